@@ -39,12 +39,18 @@ type world struct {
 	// faultBodies remembers, per target, the bodies offered by faulty
 	// responses (to name what an illegitimate cache file holds).
 	faultBodies map[string]map[string][]byte
+	// unusable marks, per target, the versions that were transferred
+	// completely with status 200 (so they are complete versions as far as the
+	// on-disk clause goes) but whose content the code under test rejects
+	// (undecodable JSON, service index with an invalid id, hash list with an
+	// over-long line); the value is the fault kind class.
+	unusable map[string]map[int]string
 }
 
 const chunkSize = 512
 
 func newWorld(rng *rand.Rand) (*world, error) {
-	w := &world{srv: map[string]*fsrv{}, urls: map[string]string{}, legit: legitSet{}, faultBodies: map[string]map[string][]byte{}}
+	w := &world{srv: map[string]*fsrv{}, urls: map[string]string{}, legit: legitSet{}, faultBodies: map[string]map[string][]byte{}, unusable: map[string]map[int]string{}}
 	for _, t := range allTargets {
 		s, err := newFsrv(t, rng, chunkSize)
 		if err != nil {
@@ -127,6 +133,12 @@ func kindClass(k string) string {
 	return k
 }
 
+// contentInvalid reports whether the fault is a complete, status-200 transfer
+// of a document that only a content-level validator rejects.
+func contentInvalid(k string) bool {
+	return k == fBadJSONHTML || k == fBadJSONCut || k == fSvcBadEntry || k == fHashLongLine
+}
+
 func isIdxVariant(k string) bool { return strings.HasPrefix(k, "idx-") }
 func isIdxKnown(k string) bool   { return strings.HasPrefix(k, "idx-known-") }
 
@@ -160,7 +172,9 @@ func pad(t string, b []byte, upTo int) []byte {
 
 // behaviourFor builds the server behaviour of target t in a round that offers
 // version v, given the fault of the round (nil or on another target: complete
-// version).  legit tells whether the body counts as a complete version.
+// version).  legit tells whether the body counts as a complete version: it
+// does iff it is transferred completely with status 200 - also when its
+// content is then rejected by the code under test (see world.unusable).
 func (w *world) behaviourFor(t string, v int, f *faultSpec, chunked bool) (b behaviour, legit bool) {
 	body := w.content(t, v)
 	if f == nil || f.Target != t {
@@ -204,18 +218,18 @@ func (w *world) behaviourFor(t string, v int, f *faultSpec, chunked bool) (b beh
 	case fTruncChunked:
 		return behaviour{Kind: bTruncChnk, Body: body, Cut: min(half+chunkSize, len(body)-1), Version: v}, false
 	case fBadJSONHTML:
-		return behaviour{Kind: bOK, Body: []byte("<html><body><h1>502 Bad Gateway</h1>the origin is down</body></html>\n"), Version: v}, false
+		return behaviour{Kind: bOK, Body: []byte("<html><body><h1>502 Bad Gateway</h1>the origin is down</body></html>\n"), Version: v}, true
 	case fBadJSONCut:
-		return behaviour{Kind: bOK, Body: body[:half], Chunked: chunked, Version: v}, false
+		return behaviour{Kind: bOK, Body: body[:half], Chunked: chunked, Version: v}, true
 	case fSvcBadEntry:
-		return behaviour{Kind: bOK, Body: svcText(v, true), Chunked: chunked, Version: v}, false
+		return behaviour{Kind: bOK, Body: svcText(v, true), Chunked: chunked, Version: v}, true
 	case fHashLongLine:
 		// a complete transfer of a hash list one of whose lines is longer than
 		// the scanner of the hash storage accepts
 		cut := bytes.LastIndexByte(body[:half], '\n') + 1
 		long := append(bytes.Repeat([]byte("a"), 70000), ".example\n"...)
 		nb := append(append(append([]byte(nil), body[:cut]...), long...), body[cut:]...)
-		return behaviour{Kind: bOK, Body: nb, Chunked: chunked, Version: v}, false
+		return behaviour{Kind: bOK, Body: nb, Chunked: chunked, Version: v}, true
 	}
 	if isIdxVariant(f.Kind) {
 		// a complete index version some of whose entries are invalid
@@ -230,6 +244,14 @@ func (w *world) setRound(v int, f *faultSpec, rng *rand.Rand) error {
 		b, legit := w.behaviourFor(t, v, f, rng.IntN(2) == 0)
 		if legit {
 			w.legit.add(t, v, b.Body)
+			if f != nil && f.Target == t && contentInvalid(f.Kind) {
+				if w.unusable[t] == nil {
+					w.unusable[t] = map[int]string{}
+				}
+				w.unusable[t][v] = kindClass(f.Kind)
+			} else if w.unusable[t] != nil {
+				delete(w.unusable[t], v)
+			}
 		} else if len(b.Body) > 0 {
 			if w.faultBodies[t] == nil {
 				w.faultBodies[t] = map[string][]byte{}
@@ -291,7 +313,7 @@ func explained(e string, f *faultSpec) bool {
 	var needles []string
 	switch f.Target {
 	case tIdx:
-		needles = []string{"rule_list_index", "index response", "rule-list id", "adding rule list"}
+		needles = []string{"rule_list_index", "index response", "rule-list id", "adding rule list", "decoding: "}
 		if isIdxKnown(f.Kind) {
 			needles = append(needles, tRLb)
 		}
@@ -349,15 +371,19 @@ type runner struct {
 // checkDisk compares the cache directory with the complete versions ever
 // offered.  It returns per target the version on disk (0 = no file, -1 = not
 // a complete version) and a printable summary.
-func (ru *runner) checkDisk(w *world, dir string, f *faultSpec, wit func() map[string]any) (vers map[string]int, summ map[string]string, origin map[string]string) {
+//
+// A file that holds a completely transferred document that the code under
+// test rejects gets version -2 and is listed in unusable.
+func (ru *runner) checkDisk(w *world, dir string, f *faultSpec, wit func() map[string]any) (vers map[string]int, summ map[string]string, origin map[string]string, unusable map[string]string) {
 	r := ru.r
 	vers = map[string]int{}
 	summ = map[string]string{}
 	origin = map[string]string{}
+	unusable = map[string]string{}
 	files, err := readDisk(dir)
 	if err != nil {
 		r.Inconclusive("cannot read cache dir: " + err.Error())
-		return vers, summ, origin
+		return vers, summ, origin, unusable
 	}
 	names := make([]string, 0, len(files))
 	for n := range files {
@@ -375,6 +401,13 @@ func (ru *runner) checkDisk(w *world, dir string, f *faultSpec, wit func() map[s
 		r.Bucket("cache_files_compared", 1)
 		v, ok := w.legit.versionOf(t, b)
 		if ok {
+			if uk, isUn := w.unusable[t][v]; isUn {
+				summ[n] = fmt.Sprintf("v%d: completely transferred document that the code under test rejects (%s)", v, uk)
+				vers[t] = -2
+				unusable[t] = uk
+				r.Bucket("observed_cache_file_holds_complete_but_unusable_document", 1)
+				continue
+			}
 			summ[n] = fmt.Sprintf("v%d", v)
 			if t != tMark {
 				vers[t] = v
@@ -429,7 +462,7 @@ func (ru *runner) checkDisk(w *world, dir string, f *faultSpec, wit func() map[s
 		r.Violation(fmt.Sprintf("cache-file-not-a-complete-version:%s:%s", targetClass(t), kind),
 			"a cache file holds bytes that are not any complete version ever served for it", wm)
 	}
-	return vers, summ, origin
+	return vers, summ, origin, unusable
 }
 
 func (ru *runner) runScenario(sc scenario) {
@@ -481,6 +514,7 @@ func (ru *runner) runScenario(sc scenario) {
 
 		// what is served / stored before the round
 		var preMarks []int
+		var preOrigin, preUnusable map[string]string
 		pre := map[string]int{}
 		live := in != nil
 		if live {
@@ -488,7 +522,8 @@ func (ru *runner) runScenario(sc scenario) {
 			pre, _ = versionsOf(o)
 			preMarks = o.Marks
 		} else {
-			dv, _, _ := ru.checkDisk(w, dir, nil, nil)
+			var dv map[string]int
+			dv, _, preOrigin, preUnusable = ru.checkDisk(w, dir, nil, nil)
 			for _, t := range servingLists {
 				pre[t] = dv[t]
 			}
@@ -546,6 +581,32 @@ func (ru *runner) runScenario(sc scenario) {
 			w.srv[t].takeLog()
 		}
 
+		// A start-up that fails although nothing is wrong with the server in
+		// this round, because a cache file left by an earlier faulty round is
+		// unusable (a start-up reads the cache regardless of its age).
+		poisoned := false
+		if !live && !res.ok() && f == nil {
+			ts := make([]string, 0, len(preOrigin))
+			for t := range preOrigin {
+				ts = append(ts, t)
+			}
+			sort.Strings(ts)
+			for _, t := range ts {
+				poisoned = true
+				fail(fmt.Sprintf("restart-fails:%s-cached-from-%s", targetClass(t), preOrigin[t]),
+					"a start-up fails, even with a healthy server, because the cache file left by an earlier failed update is unusable",
+					map[string]any{"unusable_cache_file_of": t})
+			}
+		}
+
+		if !live && !res.ok() && len(preUnusable) > 0 {
+			// The cache legitimately holds a completely transferred document
+			// whose content is rejected: not an on-disk violation; what a
+			// start-up makes of it is only counted.
+			poisoned = true
+			r.Bucket("observed_restart_fails_on_complete_but_unusable_cached_document", 1)
+		}
+
 		// unexplained errors make the strict expectations undecidable
 		for _, e := range res.Collected {
 			if !explained(e, f) {
@@ -557,13 +618,16 @@ func (ru *runner) runScenario(sc scenario) {
 				rec.Spurious = append(rec.Spurious, k+": "+e)
 			}
 		}
-		ambiguous := len(rec.Spurious) > 0
+		ambiguous := len(rec.Spurious) > 0 && !poisoned
 		if ambiguous {
 			r.Bucket("ambiguous_rounds", 1)
+			if os.Getenv("VERIF_C13_DEBUG") != "" {
+				fmt.Printf("AMBIGUOUS scenario %d round %d fault %s: %q\n", sc.Idx, i, vkit.JSON(f), rec.Spurious)
+			}
 		}
 
 		// the cache directory
-		_, rec.Disk, _ = ru.checkDisk(w, dir, f, func() map[string]any {
+		_, rec.Disk, _, _ = ru.checkDisk(w, dir, f, func() map[string]any {
 			wm := witness()
 			wm["this_round"] = rec
 			return wm
@@ -704,7 +768,7 @@ func (ru *runner) finalRestart(w *world, sc scenario, conf instConf, recs []roun
 	witness := func() map[string]any {
 		return map[string]any{"scenario": sc, "pattern": sc.pattern(), "rounds": recs, "step": "restart with every server down"}
 	}
-	dv, summ, origin := ru.checkDisk(w, conf.Dir, lastFault, nil)
+	dv, summ, origin, unusable := ru.checkDisk(w, conf.Dir, lastFault, nil)
 	// the start-up needs the index, the services, both safe-search lists and
 	// the three hash lists; rule lists that are missing are merely not served
 	need := []string{tIdx, tSvc, tSSGen, tSSYT, tHPAdult, tHPDanger, tHPNewReg}
@@ -721,6 +785,16 @@ func (ru *runner) finalRestart(w *world, sc scenario, conf instConf, recs []roun
 	}
 	res := in.start(ctx)
 	r.Bucket("restarts_with_server_down", 1)
+	if len(unusable) > 0 {
+		// The restart-usability clause is about kill points, not about a
+		// document the origin served completely and the validators reject:
+		// no assertion, the outcome is counted.
+		if !res.ok() {
+			r.Bucket("observed_restart_fails_on_complete_but_unusable_cached_document", 1)
+			return
+		}
+		r.Bucket("observed_restart_ok_despite_complete_but_unusable_cached_document", 1)
+	}
 	if !res.ok() {
 		wm := witness()
 		wm["cache_dir"] = summ
@@ -955,7 +1029,8 @@ func TestCheck(t *testing.T) {
 		"crash points: class = (method, syscall or target, N or chunk); non-trivial = the child was killed before it finished. " +
 		"Oracle from the statement: faulted list == version served before; other lists in {before, new}; cache files and restarts only complete versions.")
 	r.Assume("every list version is recognisable by probe hosts unique to it (first, middle and last entry); a version counts as served only if all three are filtered")
-	r.Assume("a complete version is a body offered with status 200 and a complete transfer; bodies of faulty responses never count")
+	r.Assume("a complete version is every body that was transferred completely with status 200 - including documents whose content the code under test then rejects (undecodable JSON index, service index with an invalid id, hash list with an over-long line); bodies of truncated, oversized, empty, non-200 or interrupted transfers never count")
+	r.Assume("the restart-usability assertion applies only while no cache file holds such a complete-but-content-invalid document; otherwise the outcome of the restart is only counted (bucket observed_restart_fails_on_complete_but_unusable_cached_document); that the affected list keeps serving its previous content in memory is still asserted")
 	r.Assume("temporary files (names starting with '.') are ignored in the cache directory")
 	r.Assume("crash points: the child pins the refreshing goroutine to one OS thread so that strace's per-thread 'when=N' enumerates the file system calls of a refresh in order; SIGKILL is delivered on entry of the N-th call (the call does not take effect)")
 	r.Assume("durability against power loss (effect of a missing fsync) is not observable by killing a process and is not covered")
